@@ -24,7 +24,7 @@ def log(*a):
 
 
 def run(cmd, **kw):
-    return subprocess.run(cmd, stdout=subprocess.PIPE, stderr=subprocess.PIPE, text=True, **kw)
+    return subprocess.run(cmd, stdout=subprocess.PIPE, stderr=subprocess.PIPE, text=True, errors="replace", **kw)
 
 
 def compile_objects(outdir, units, jobs=NPROC):
@@ -83,7 +83,7 @@ def ensure_tfel(targets=("mfront", "mtest", "tfel-check")):
     lock = os.path.join(BUILD, ".tfel.lock")
     t0 = time.time()
     cmd = ["flock", lock, os.path.join(VERIF, "bin", "build-tfel")] + list(targets)
-    r = subprocess.run(cmd, stdout=subprocess.PIPE, stderr=subprocess.STDOUT, text=True)
+    r = subprocess.run(cmd, stdout=subprocess.PIPE, stderr=subprocess.STDOUT, text=True, errors="replace")
     if r.returncode != 0:
         log("BUILD FAILED (private TFEL tree):")
         log(r.stdout[-6000:])
